@@ -282,9 +282,12 @@ func refAny(xs []int) []any {
 	return out
 }
 
-// runString logs the three scenarios of one string: the ociref functions; the string as a
-// path element of five GET requests; the string as an argument of the client.
-func (d *refDriver) runString(src string, s string, pred any) {
+// runString logs the scenario of one string: the ociref functions; the string as a path
+// element of GET requests served by ociserver; the string as an argument of the client.
+// level 1: three requests (manifests, blobs, tags/list) and one client call; level 2: five
+// requests and four client calls.  A panic event ends its scenario (a reset line follows),
+// so that the events after it are still validated.
+func (d *refDriver) runString(src string, s string, pred any, level int) {
 	if d.seen[s] {
 		return
 	}
@@ -294,24 +297,30 @@ func (d *refDriver) runString(src string, s string, pred any) {
 	if pred != nil {
 		in["pred"] = pred
 	}
-	d.emit(refEv{"op": "reset", "src": src, "what": "ociref"})
-	d.emit(d.exec(in))
-	d.emit(refEv{"op": "reset", "src": src, "what": "router"})
-	for _, p := range []string{
-		"/v2/foo/manifests/" + s,
-		"/v2/foo/blobs/" + s,
-		"/v2/" + s + "/tags/list",
-		"/v2/" + s + "/manifests/a",
-		"/v2/foo/referrers/" + s,
-	} {
-		d.emit(d.exec(refEv{"op": "route", "path": refAny(refCodes(p))}))
+	reset := refEv{"op": "reset", "src": src}
+	step := func(in refEv) {
+		ev := d.exec(in)
+		d.emit(ev)
+		if ev["op"] == "panic" {
+			d.emit(reset)
+		}
 	}
-	d.emit(refEv{"op": "reset", "src": src, "what": "client"})
+	d.emit(reset)
+	step(in)
+	paths := []string{"/v2/foo/manifests/" + s, "/v2/foo/blobs/" + s, "/v2/" + s + "/tags/list"}
+	if level >= 2 {
+		paths = append(paths, "/v2/"+s+"/manifests/a", "/v2/foo/referrers/"+s)
+	}
+	for _, p := range paths {
+		step(refEv{"op": "route", "path": refAny(refCodes(p))})
+	}
 	foo := refAny(refCodes("foo"))
-	d.emit(d.exec(refEv{"op": "client", "fn": "ResolveTag", "repo": foo, "ref": cs}))
-	d.emit(d.exec(refEv{"op": "client", "fn": "GetTag", "repo": foo, "ref": cs}))
-	d.emit(d.exec(refEv{"op": "client", "fn": "GetManifest", "repo": foo, "ref": cs}))
-	d.emit(d.exec(refEv{"op": "client", "fn": "ResolveTag", "repo": cs, "ref": refAny(refCodes("a"))}))
+	step(refEv{"op": "client", "fn": "ResolveTag", "repo": foo, "ref": cs})
+	if level >= 2 {
+		step(refEv{"op": "client", "fn": "GetTag", "repo": foo, "ref": cs})
+		step(refEv{"op": "client", "fn": "GetManifest", "repo": foo, "ref": cs})
+		step(refEv{"op": "client", "fn": "ResolveTag", "repo": cs, "ref": refAny(refCodes("a"))})
+	}
 }
 
 func refCmd(args []string) error {
@@ -320,6 +329,8 @@ func refCmd(args []string) error {
 	n := fs.Int("n", 0, "number of random / mutated strings")
 	cases := fs.String("cases", "", "file with one TLC-exported case per line ({kind, s | p, v})")
 	replay := fs.String("replay", "", "replay file: re-execute the inputs of its events")
+	level := fs.Int("level", 2, "1: three requests and one client call per string; 2: five and four")
+	lightMax := fs.Int("lightmax", -1, "TLC-exported plain strings of at most this many bytes are run at level 1")
 	out := fs.String("out", "", "trace file")
 	fs.Parse(args)
 	f, err := os.Create(*out)
@@ -385,7 +396,7 @@ func refCmd(args []string) error {
 			}
 			s := refFromCodes(c.S)
 			if c.Kind == "parts" {
-				d.emit(refEv{"op": "reset", "src": "tlc", "what": "print"})
+				d.emit(refEv{"op": "reset", "src": "tlc"})
 				ev := d.exec(refEv{"op": "print", "p": c.P})
 				d.emit(ev)
 				if str, ok := ev["str"].([]int); ok {
@@ -397,20 +408,24 @@ func refCmd(args []string) error {
 						printed[i] = byte(x)
 					}
 					if string(printed) != s {
-						d.runString("tlc", string(printed), nil)
+						d.runString("tlc", string(printed), nil, *level)
 						total++
 						continue
 					}
 				}
 			}
-			d.runString("tlc", s, c.V)
+			lv := *level
+			if c.Kind == "str" && len(s) <= *lightMax {
+				lv = 1
+			}
+			d.runString("tlc", s, c.V, lv)
 			total++
 		}
 	}
 
 	rnd := rand.New(rand.NewSource(*seed))
 	for i := 0; i < *n; i++ {
-		d.runString("rand", refRandom(rnd), nil)
+		d.runString("rand", refRandom(rnd), nil, *level)
 		total++
 	}
 	fmt.Printf("{\"strings\":%d,\"events\":%d}\n", total, d.events)
